@@ -378,8 +378,8 @@ func (m *Model) RunNilErr(s *Sink, rule string) {
 			}
 		}
 	}
-	if len(callers) < 2 {
-		s.Undecided(rule, "callers of ParseProgram", "-", "expected at least 2 callers of ParseProgram outside the parser, found %d", len(callers))
+	if len(callers) < 1 {
+		s.Undecided(rule, "callers of ParseProgram", "-", "no caller of ParseProgram outside the parser was found")
 	}
 	for _, fn := range callers {
 		key := fnKey(fn) + "|program or errors, never both"
